@@ -238,6 +238,9 @@ theorem read_heals (c : Cfg) (code : Code) (H : Bytes → Bytes) (wf : WF c code
     exact ⟨_, hmem0, by rw [hq]; simp⟩
   unfold read
   simp only [hall, Bool.and_false, Bool.false_eq_true, if_false]
+  have hg : ¬ (((List.zip (List.range streams.length) streams).map fun (k, s) => openShard c k s).filter Option.isSome).length < c.d :=
+    Nat.not_lt.2 (Nat.le_trans hfew (open_ge_intact c code H wf b streams hlen))
+  simp only [hg, decide_false, Bool.and_false, Bool.false_eq_true, if_false]
   refine ⟨_, rfl, ?_⟩
   have hrl : ((List.zip (List.range streams.length) streams).map fun (k, s) => openShard c k s).length = c.n := by
     simp [hlen]
